@@ -24,9 +24,29 @@ type Party struct {
 // identity understands.
 type Unknown struct {
 	Stanzas []*age.Stanza
+	// Touch, when set, is what this third-party recipient does with the slice
+	// it is handed before it returns its stanzas (Go lets it append to it).
+	Touch func(fileKey []byte)
+}
+
+// appendKeyID is what a recipient with a key identifier does: it builds
+// "file key || key id" with append, which writes into the spare capacity of
+// the caller's slice when there is any.
+func appendKeyID(n int) func([]byte) {
+	return func(fileKey []byte) {
+		id := make([]byte, n)
+		for i := range id {
+			id[i] = 0xA0 + byte(i)
+		}
+		buf := append(fileKey, id...)
+		_ = buf
+	}
 }
 
 func (u *Unknown) Wrap(fileKey []byte) ([]*age.Stanza, error) {
+	if u.Touch != nil {
+		u.Touch(fileKey)
+	}
 	out := make([]*age.Stanza, len(u.Stanzas))
 	for i, s := range u.Stanzas {
 		c := *s
@@ -109,6 +129,13 @@ func buildWorld() {
 		{Type: "ssh-ed25519-x", Args: []string{"A", "B"}, Body: make([]byte, 47)}}}}
 	world["U3"] = &Party{Name: "U3", Kind: 'U', Recipient: &Unknown{Stanzas: []*age.Stanza{
 		{Type: "!", Args: []string{"~", "}"}, Body: make([]byte, 49)}}}}
+	// A1..A3: third-party recipients that append a key id of 16, 4 and 1 bytes
+	// to the file key slice they are handed (kind U: nobody opens their stanza)
+	for i, n := range []int{16, 4, 1} {
+		name := fmt.Sprintf("A%d", i+1)
+		world[name] = &Party{Name: name, Kind: 'U', Recipient: &Unknown{Touch: appendKeyID(n), Stanzas: []*age.Stanza{
+			{Type: "key-id-appender", Args: []string{name}, Body: make([]byte, 32)}}}}
+	}
 	// U4: a stanza whose argument line is longer than any default I/O buffer
 	long := make([]byte, 5000)
 	for i := range long {
@@ -118,7 +145,7 @@ func buildWorld() {
 		{Type: "long-args", Args: []string{string(long), "tail"}, Body: make([]byte, 100)}}}}
 }
 
-// P returns the named party: X1..X4, E1..E3, R1..R6, S1, S2, U0..U4, and
+// P returns the named party: X1..X4, E1..E3, R1..R6, A1..A3, S1, S2, U0..U4, and
 // XN<anything>: further native parties made on demand (for very long lists).
 func P(name string) *Party {
 	worldOnce.Do(buildWorld)
